@@ -11,7 +11,8 @@
   the primitives of the trusted prelude `EG/Model/AdaptSrcPrelude.lean`.
 
   Proved here, for ALL inputs and without guards (the hand model `Adapter.lower` has none):
-    * `<Adapter>_<method>_src_eq_model` (16): the generated method, applied to the adapter built by the generated
+    * `<Adapter>_<method>_src_eq_model` (16; `Clipped::fill_contiguous` with fuel > number of colours for the
+      regenerated cropping iterator, `CropFuel`, see GeneratedCroppedIter.lean): the generated method, applied to the adapter built by the generated
       `DrawTargetExt` constructor over a parent with box `B`, is `Adapter.lower` of the hand model
       (EG/Model/Adapters.lean) on the corresponding call; `<Adapter>_bounding_box_src_eq_model` (4): `Adapter.bbox`.
     * `src_lower_eq_model` / `src_bbox_eq_model`: the same as one statement over `srcLower` / `srcBbox` (dispatch on
@@ -33,13 +34,14 @@
 -/
 import EG.Generated.AdaptSrc
 import EG.Props.C03
+import EG.Props.C03.GeneratedCroppedIter
 namespace EG.C03.GenAdapters
-open EG EG.Rect EG.Tgt EG.Generated EG.RectSrcPrelude EG.AdaptSrcPrelude
+open EG EG.Rect EG.Tgt EG.Generated EG.RectSrcPrelude EG.AdaptSrcPrelude EG.C03.GenCroppedIter
 
 /-- unfold every prelude primitive of AdaptSrcPrelude (and the listed definitions) -/
 macro "adapt_simp" "[" ls:Lean.Parser.Tactic.simpLemma,* "]" : tactic =>
   `(tactic| simp only [Pixel_mk, Pixel_0, Pixel_1, tuple_0, tuple_1, PhantomData_mk, into_iter, iter_map, iter_filter,
-      iter_zip, core_iter_repeat, iter_of_next_map, contiguous_Cropped_new, Rectangle_new, Rectangle_intersection,
+      iter_zip, core_iter_repeat, iter_of_next_map, iter_next, iter_nth, Rectangle_new, Rectangle_intersection,
       Rectangle_translate, Rectangle_contains, Rectangle_points, Rectangle_eq, Rectangle_ne, Point_zero, Point_neg,
       Point_add, Point_sub, DrawTargetT_bounding_box, DrawTargetT_draw_iter, DrawTargetT_fill_contiguous,
       DrawTargetT_fill_solid, DrawTargetT_clear, Rectangle_top_left, Rectangle_size, $ls,*])
@@ -79,17 +81,21 @@ theorem Clipped_draw_iter_src_eq_model (B r : Rect) (px : Writes) :
     AdaptSrc.Clipped_draw_iter (AdaptSrc.DrawTargetExt_clipped B r) px
       = (Adapter.clipped r).lower B (.drawIter px) := rfl
 
-/-- both arms: the `intersection == area` shortcut and the re-cut colour stream -/
-theorem Clipped_fill_contiguous_src_eq_model (B r : Rect) (area : Rect) (cs : List Color) :
-    AdaptSrc.Clipped_fill_contiguous (AdaptSrc.DrawTargetExt_clipped B r) area cs
+/-- both arms: the `intersection == area` shortcut and the re-cut colour stream, the latter through the REGENERATED
+`iterator::contiguous::Cropped` (`new` + `next`, collected on `fuel`; GeneratedCroppedIter.lean) -/
+theorem Clipped_fill_contiguous_src_eq_model (B r : Rect) (area : Rect) (cs : List Color) (fuel : Nat)
+    (hf : CropFuel fuel cs) :
+    AdaptSrc.Clipped_fill_contiguous fuel (AdaptSrc.DrawTargetExt_clipped B r) area cs
       = (Adapter.clipped r).lower B (.fillContiguous area cs) := by
   show (if decide ((r.intersection B).intersection area = area) = true
       then Call.fillContiguous area cs
       else Call.fillContiguous ((r.intersection B).intersection area)
-        (croppedList cs area.size (((r.intersection B).intersection area).translate (-area.tl)))) =
+        (iter_collect_fuel AdaptSrc.contiguous_Cropped_next fuel
+          (AdaptSrc.contiguous_Cropped_new cs area.size (((r.intersection B).intersection area).translate (-area.tl))))) =
     (if (r.intersection B).intersection area = area then Call.fillContiguous area cs
       else Call.fillContiguous ((r.intersection B).intersection area)
         (croppedList cs area.size (((r.intersection B).intersection area).translate (-area.tl))))
+  rw [contiguous_Cropped_collect_src_eq_model cs _ _ fuel hf]
   by_cases h : (r.intersection B).intersection area = area <;> simp [h]
 
 theorem Clipped_fill_solid_src_eq_model (B r : Rect) (area : Rect) (c : Color) :
@@ -159,7 +165,9 @@ def srcLower (a : Adapter) (B : Rect) (call : Call) : Call :=
   | .translated d, .fillSolid area c => AdaptSrc.Translated_fill_solid (AdaptSrc.DrawTargetExt_translated B d) area c
   | .translated d, .clear c => AdaptSrc.Translated_clear (AdaptSrc.DrawTargetExt_translated B d) c
   | .clipped r, .drawIter px => AdaptSrc.Clipped_draw_iter (AdaptSrc.DrawTargetExt_clipped B r) px
-  | .clipped r, .fillContiguous area cs => AdaptSrc.Clipped_fill_contiguous (AdaptSrc.DrawTargetExt_clipped B r) area cs
+  | .clipped r, .fillContiguous area cs =>
+    -- fuel for the regenerated cropping iterator: one more than the number of colours (`CropFuel`)
+    AdaptSrc.Clipped_fill_contiguous (cs.length + 1) (AdaptSrc.DrawTargetExt_clipped B r) area cs
   | .clipped r, .fillSolid area c => AdaptSrc.Clipped_fill_solid (AdaptSrc.DrawTargetExt_clipped B r) area c
   | .clipped r, .clear c => AdaptSrc.Clipped_clear (AdaptSrc.DrawTargetExt_clipped B r) c
   | .cropped r, .drawIter px => AdaptSrc.Cropped_draw_iter (AdaptSrc.DrawTargetExt_cropped B r) px
@@ -184,7 +192,7 @@ theorem src_lower_eq_model (a : Adapter) (B : Rect) (call : Call) : srcLower a B
   cases a <;> cases call <;>
     first
       | rfl
-      | exact Clipped_fill_contiguous_src_eq_model _ _ _ _
+      | exact Clipped_fill_contiguous_src_eq_model _ _ _ _ _ (Nat.lt_succ_self _)
 
 theorem src_bbox_eq_model (a : Adapter) (B : Rect) : srcBbox a B = a.bbox B := by
   cases a <;> rfl
@@ -343,6 +351,6 @@ example : (srcLowerStack ⟨⟨-3, -2⟩, ⟨7, 5⟩⟩
     (.fillContiguous ⟨⟨-2, -1⟩, ⟨4, 3⟩⟩ [1, 2, 3, 4, 5, 6, 7])) =
     .fillContiguous ⟨⟨-1, -1⟩, ⟨3, 2⟩⟩ [5, 6, 7] := by decide
 
--- [V] trusted by the source tie of the adapters: the prelude EG/Model/AdaptSrcPrelude.lean (an `IntoIterator` argument is the finite list of its items, `map` / `filter` / `zip` are the list operations, `repeat` is cut by explicit fuel, an iterator adapter whose `next` is `self.iter.next().map(F)` maps `F`, a generic parent target is its `bounding_box()` and a call on it is the `Call` value, `Rectangle`'s methods are the hand model's [their own source tie: C16's Generated*.lean, `intersection` / `contains` under `FitsI32`], `iterator::contiguous::Cropped::new` is the hand model `croppedList` of EG/Model/CroppedIter.lean [its `new` / `next` are NOT regenerated: correspondence stream + `cropped_iter_*` theorems only]); the parser and the type-directed method resolution of tools/tr_adapt.py / tr_rect.py (demonstrated by tools/tests/adapt_translator_demo.py: 12 mutations each break a theorem, 6 harmless rewrites break none); that trait-method dispatch picks the impls the translator picks (the adapter's own `impl DrawTarget`, else the trait default; `Cropped`'s box through the blanket `impl<T: OriginDimensions> Dimensions for T`)
+-- [V] trusted by the source tie of the adapters: the prelude EG/Model/AdaptSrcPrelude.lean (an `IntoIterator` argument is the finite list of its items, `map` / `filter` / `zip` are the list operations, `repeat` is cut by explicit fuel, an iterator adapter whose `next` is `self.iter.next().map(F)` maps `F`, a generic parent target is its `bounding_box()` and a call on it is the `Call` value, `Rectangle`'s methods are the hand model's [their own source tie: C16's Generated*.lean, `intersection` / `contains` under `FitsI32`], `Iterator::next` / `nth` of a list iterator, a crate-defined iterator with a stateful `next` collected on explicit fuel [`iterator::contiguous::Cropped`: its `new` / `next` ARE regenerated and proved equal to the hand model, GeneratedCroppedIter.lean], `usize` as `Nat` with `i32 as usize` sign-extending); the parser and the type-directed method resolution of tools/tr_adapt.py / tr_rect.py (demonstrated by tools/tests/adapt_translator_demo.py: 12 mutations each break a theorem, 6 harmless rewrites break none); that trait-method dispatch picks the impls the translator picks (the adapter's own `impl DrawTarget`, else the trait default; `Cropped`'s box through the blanket `impl<T: OriginDimensions> Dimensions for T`)
 
 end EG.C03.GenAdapters
